@@ -139,6 +139,22 @@ impl Item for Wide {
     }
 }
 
+impl Item for tok::Plain {
+    const W: usize = 1;
+    #[inline]
+    fn grp(&self) -> Grp {
+        tok::check_read("read", self.id, self.val);
+        Grp::one(self.id)
+    }
+    fn fresh(pos: u32, owner: u8) -> Self {
+        tok::Plain::new(pos * 4, owner)
+    }
+    type Inner = NoInner;
+    fn into_inner(self) -> Result<NoInner, Self> {
+        Err(self)
+    }
+}
+
 macro_rules! item_vec {
     ($Vec:ident, $n:expr, [$($f:ident)+], [$($i:tt)+]) => {
         impl Item for vek::vec::repr_c::$Vec<Tok> {
@@ -224,6 +240,7 @@ pub trait Kind<X: Item>: 'static {
     fn v_observe_hash(v: &Self::V) -> u64;
     fn v_observe_eq(a: &Self::V, b: &Self::V) -> bool;
     fn v_observe_display(v: &Self::V) -> usize;
+    fn v_clone(v: &Self::V) -> Self::V;
     /// `v.map(f)` with `f: FnMut(X) -> X`
     fn v_map<F: FnMut(X) -> X>(v: Self::V, f: F) -> Self::V;
     /// `a.zip(b).map(|(x, y)| f(x, y))`
@@ -330,6 +347,7 @@ macro_rules! kind {
                 let _ = write!(s, "{}", v);
                 s.0
             }
+            fn v_clone(v: &Self::V) -> Self::V { v.clone() }
             fn v_map<F: FnMut(X) -> X>(v: Self::V, f: F) -> Self::V { v.map(f) }
             fn v_zip_map<F: FnMut(X, X) -> X>(a: Self::V, b: Self::V, mut f: F) -> Self::V { a.zip(b).map(|(x, y)| f(x, y)) }
             fn v_map2<F: FnMut(X, X) -> X>(a: Self::V, b: Self::V, f: F) -> Self::V { a.map2(b, f) }
